@@ -13,6 +13,8 @@
 (*   en   en[p]: p's FlushAndRestart of this iteration was consumed        *)
 (*   ri   ri[p]: number of FlushAndRestart consumed from p                 *)
 (*   ro   number of FlushAndRestart emitted                                *)
+(*   rise kind ("W" / "R") of the consumed element that last raised the    *)
+(*        minimum over the active replicas                                 *)
 (*   b    set of violated predicate kinds                                  *)
 (***************************************************************************)
 EXTENDS Naturals, Integers, Sequences, FiniteSets, Elem
@@ -20,7 +22,7 @@ EXTENDS Naturals, Integers, Sequences, FiniteSets, Elem
 NONE == -1
 
 MonInit(S) == [g |-> GInit, low |-> NONE, lat |-> [p \in S |-> NONE], en |-> [p \in S |-> FALSE],
-               ri |-> [p \in S |-> 0], ro |-> 0, b |-> {}]
+               ri |-> [p \in S |-> 0], ro |-> 0, rise |-> "W", b |-> {}]
 
 MinOf(T) == CHOOSE m \in T : \A x \in T : m <= x
 
@@ -35,14 +37,17 @@ AllMin(m) ==
   IF \E p \in DOMAIN m.lat : m.lat[p] = NONE THEN NONE ELSE MinOf({m.lat[p] : p \in DOMAIN m.lat})
 
 Withheld(m) == ActiveMin(m) # NONE /\ (m.low = NONE \/ m.low < ActiveMin(m))
-WithheldCause(m) ==
-  IF AllMin(m) # NONE /\ (m.low = NONE \/ m.low < AllMin(m)) THEN "watermark" ELSE "replica_ended"
+(* Two causes are told apart by the element whose consumption raised the active minimum to its   *)
+(* current value: a watermark of a running replica ("watermark"), or the FlushAndRestart of a    *)
+(* replica that thereby left the set of active replicas ("replica_ended", the open finding F6).  *)
+WithheldCause(m) == IF m.rise = "R" THEN "replica_ended" ELSE "watermark"
 
 (* the block consumed element e of upstream replica p *)
 MonIn(m, p, e) ==
-  [m EXCEPT !.lat = IF e.k = "W" /\ (m.lat[p] = NONE \/ e.ts > m.lat[p]) THEN [@ EXCEPT ![p] = e.ts] ELSE @,
-            !.en  = IF e.k = "R" THEN [@ EXCEPT ![p] = TRUE] ELSE @,
-            !.ri  = IF e.k = "R" THEN [@ EXCEPT ![p] = @ + 1] ELSE @]
+  LET m2 == [m EXCEPT !.lat = IF e.k = "W" /\ (m.lat[p] = NONE \/ e.ts > m.lat[p]) THEN [@ EXCEPT ![p] = e.ts] ELSE @,
+                      !.en  = IF e.k = "R" THEN [@ EXCEPT ![p] = TRUE] ELSE @,
+                      !.ri  = IF e.k = "R" THEN [@ EXCEPT ![p] = @ + 1] ELSE @]
+  IN [m2 EXCEPT !.rise = IF ActiveMin(m2) # ActiveMin(m) /\ ActiveMin(m2) # NONE THEN e.k ELSE @]
 
 (* the block handed element e to its operators *)
 MonOut(m, e) ==
@@ -61,6 +66,7 @@ MonOut(m, e) ==
       en  |-> IF isR THEN [p \in DOMAIN m.en |-> FALSE] ELSE m.en,
       ri  |-> m.ri,
       ro  |-> IF isR THEN m.ro + 1 ELSE m.ro,
+      rise |-> IF isR THEN "W" ELSE m.rise,
       b   |-> m.b \cup (IF g2 = "bad" /\ m.g # "bad" THEN {"grammar"} ELSE {})
                   \cup (IF lateT THEN {"late_element"} ELSE {})
                   \cup (IF badW THEN {"watermark_not_increasing"} ELSE {})
